@@ -45,6 +45,15 @@ pub fn run_case(toks: &[&str], em: &mut Emitter) {
                 'R' => { s.pipe.push_in(&refsrv::mcs_sdin(1003, &unhex(&op[1..]))); s.client.read(|e| if let RdpEvent::Bitmap(b) = e { evs.push(show_ev(&b)) }).map_err(|_| ()) }
                 'F' => { let f: Vec<&str> = op[1..].split(':').collect(); s.pipe.push_in(&refsrv::fast_path_frame(f[0].parse().unwrap(), &unhex(f[1]))); s.client.read(|e| if let RdpEvent::Bitmap(b) = e { evs.push(show_ev(&b)) }).map_err(|_| ()) }
                 'M' => { s.pipe.push_in(&refsrv::x224_data(&unhex(&op[1..]))); s.client.read(|e| if let RdpEvent::Bitmap(b) = e { evs.push(show_ev(&b)) }).map_err(|_| ()) }
+                'W' => {
+                    // raw stream bytes, then k reads
+                    let f: Vec<&str> = op[1..].split(':').collect();
+                    let k: usize = f[0].parse().unwrap();
+                    s.pipe.push_in(&unhex(f[1]));
+                    let mut r = Ok(());
+                    for _ in 0..k { r = s.client.read(|e| if let RdpEvent::Bitmap(b) = e { evs.push(show_ev(&b)) }).map_err(|_| ()); if r.is_err() { break; } }
+                    r
+                }
                 'T' => s.client.try_write(parse_event(&op[1..]).unwrap()).map_err(|_| ()),
                 _ => s.client.write(parse_event(op).unwrap()).map_err(|_| ()),
             };
@@ -234,6 +243,37 @@ pub fn generate_c10(thorough: bool, seed: u64, _part: (usize, usize), em: &mut E
         }
         emit(em, 1004, 800, 600, 0x409, "rdp-rs", &ops, Some(&hist0));
     }
+    // every update code carrying the body of a well-formed bitmap update (only code 1 may yield
+    // rectangles), and pointer updates whose leading field looks like UPDATETYPE_BITMAP
+    for code in 0..16u8 {
+        let mut g = Gen { r: &mut r, share: 0x000103ea };
+        let mut ops = vec![]; let mut hist0 = vec![]; activate(&mut g, &mut ops, &mut hist0);
+        let rects: Vec<Rect> = (0..2).map(|_| g.rect()).collect();
+        let bm = refsrv::fp_bitmap_update(&rects);
+        let body = bm[3..].to_vec();
+        let mut payload = refsrv::fp_update(code, &body);
+        payload.extend(refsrv::fp_bitmap_update(&[g.rect()]));
+        ops.push(format!("F0:{}", hex(&payload))); hist0.push("FP".into());
+        emit(em, 1004, 800, 600, 0x409, "rdp-rs", &ops, Some(&hist0));
+    }
+    // several complete fast-path frames arriving together, with empty ones (short and long form,
+    // length exactly the header) in between: every rectangle is still delivered
+    for variant in 0..(if thorough { 200 } else { 24 }) {
+        let mut g = Gen { r: &mut r, share: 0x000103ea };
+        let mut ops = vec![]; let mut hist0 = vec![]; activate(&mut g, &mut ops, &mut hist0);
+        let mut stream: Vec<u8> = vec![]; let mut k = 0;
+        let nfr = g.r.range(2, 5);
+        for i in 0..nfr {
+            match (variant + i as usize) % 4 {
+                0 => { stream.extend(&[0x00, 0x80, 0x03]); }                       // empty PDU, long form
+                1 => { stream.extend(&[0x00, 0x02]); }                             // empty PDU, short form
+                _ => { let n = g.r.range(1, 3) as usize; let rects: Vec<Rect> = (0..n).map(|_| g.rect()).collect(); stream.extend(refsrv::fast_path_frame(0, &refsrv::fp_bitmap_update(&rects))); }
+            }
+            k += 1;
+        }
+        ops.push(format!("W{}:{}", k, hex(&stream))); hist0.push("WB".into());
+        emit(em, 1004, 800, 600, 0x409, "rdp-rs", &ops, Some(&hist0));
+    }
 }
 
 /// C06: hostile slow-path / fast-path / MCS-level bytes in every client state
@@ -305,6 +345,32 @@ pub fn generate_c06(thorough: bool, seed: u64, part: (usize, usize), em: &mut Em
                 format!("R{}", hex(&m)) }
         };
         run(em, &mut r, pre, vec![op]);
+    }
+    // d. every share-control PDU type, with the bodies of the well-formed PDUs (a reflected
+    //    confirm-active, a demand-active under another type, ...), in every state
+    {
+        let caps = vec![refsrv::cap(1, &[1, 0, 3, 0, 0, 2, 0, 0, 0, 0, 0x1d, 4, 0, 0, 0, 0, 0, 0, 1, 1]), refsrv::cap(9, &[0, 0, 0, 0])];
+        let bodies: Vec<Vec<u8>> = vec![
+            refsrv::confirm_active(0x103ea, b"RDP", &caps)[6..].to_vec(),
+            refsrv::demand_active(0x103ea, b"RDP", &caps)[6..].to_vec(),
+            refsrv::deactivate_all(0x103ea, b"RDP")[6..].to_vec(),
+            refsrv::synchronize(0x103ea, 1002)[6..].to_vec(),
+        ];
+        for ty in 0..=0x1fu16 { for body in &bodies { for pre in prefixes.iter() {
+            idx += 1; if idx % part.1 != part.0 { continue; }
+            run(em, &mut r, pre, vec![format!("R{}", hex(&refsrv::share_control(ty, 0x03ea, body)))]);
+        } } }
+    }
+    // e. the stream itself: short / degenerate TPKT and fast-path headers at the framing entry
+    {
+        let mut streams: Vec<Vec<u8>> = vec![];
+        for a in &[0u8, 0x80, 0xc0, 0x40, 3] { for l in 0..=4u8 { streams.push(vec![*a, l]); streams.push(vec![*a, l, 1, 2]); } }
+        for a in &[0u8, 0x80] { for hi in &[0x80u8, 0x81, 0xff] { for lo in 0..=5u8 { streams.push(vec![*a, *hi, lo]); streams.push(vec![*a, *hi, lo, 9, 9, 9]); } } }
+        for hi in &[0u8, 1, 0xff] { for lo in 0..=9u8 { streams.push(vec![3, 0, *hi, lo]); streams.push(vec![3, 0, *hi, lo, 2, 0xf0, 0x80, 0x68]); } }
+        for st in &streams {
+            idx += 1; if idx % part.1 != part.0 { continue; }
+            run(em, &mut r, prefixes[idx % 6], vec![format!("W1:{}", hex(st))]);
+        }
     }
     em.alloc_limit = 0;
 }
